@@ -175,6 +175,33 @@ int main(int argc, char **argv)
         break;
       key = rng.bytes(16);
     }
+    // flavours "zs" / "zx" / "zl" (crash mode): pick the key so that the tag an interrupted file would NEED - the real
+    // HMAC of "header, IV table and the first body block", whose tag field still holds zeros - has byte sum 0 mod 256 /
+    // byte xor 0 / a last byte 0: the crash states on which an aggregate, folded or partial tag comparison goes wrong
+    std::string flav = argv[argc - 1];
+    if (mode == "crash" && (flav == "zs" || flav == "zx" || flav == "zl") && n >= 1)
+      for (int tries = 0; tries < 20000; ++tries)
+      {
+        OpResult e0 = wv_encrypt(P, key, cm, hm, seed, T);
+        size_t cut = 48 + 20 * T + 16;
+        if (e0.out.size() < cut)
+          break;
+        std::vector<u8_t> part(e0.out.begin(), e0.out.begin() + cut);
+        for (int i = 10; i < 48; ++i)
+          part[i] = 0;
+        hmac hh;
+        u8_t tg[64];
+        FILE *f = wv_memfile(part);
+        fseek(f, 48, SEEK_SET);
+        hh.gethmac(hm, (u8_t *)key.data(), f, tg);
+        fclose(f);
+        int hl = hh.get_length(), sum = 0, x = 0;
+        for (int i = 0; i < hl; ++i)
+          sum += tg[i], x ^= tg[i];
+        if ((flav == "zs" && sum % 256 == 0) || (flav == "zx" && x == 0) || (flav == "zl" && tg[hl - 1] == 0))
+          break;
+        key = rng.bytes(16);
+      }
     if (mode != "crash")
     {
       OpResult e = wv_encrypt(P, key, cm, hm, seed, T);
@@ -217,6 +244,22 @@ int main(int argc, char **argv)
           t2.insert(t2.end(), r.begin(), r.end());
           add("extend-random", C.size(), k, t2);
         }
+        // the file followed by the hash function's OWN padding of what the tag covers (key block + region):
+        // 80 00.. and the 64-bit bit length, big-endian (SHA-1/SHA-256) and little-endian (MD5) - the
+        // extension that a hash which skips or mis-places its final block cannot tell from the original
+        for (int le = 0; le < 2; ++le)
+          for (unsigned long long pre : {64ULL, 0ULL})
+          {
+            unsigned long long L = pre + (C.size() - 48);
+            std::vector<u8_t> pad(1, 0x80);
+            while ((L + pad.size()) % 64 != 56)
+              pad.push_back(0);
+            for (int i = 0; i < 8; ++i)
+              pad.push_back((u8_t)((L * 8) >> (le ? 8 * i : 8 * (7 - i))));
+            auto t = C;
+            t.insert(t.end(), pad.begin(), pad.end());
+            add(le ? "extend-mdpad-le" : "extend-mdpad-be", C.size(), (long)pre, t);
+          }
         // insert / delete at region boundaries and interiors
         size_t tm = 48 + 20 * T;
         for (size_t p : std::vector<size_t>{0, 4, 8, 9, 10, 20, 30, 40, 47, 48, 58, tm - 1, tm, tm + 1, tm + 16, C.size() - 16, C.size() - 1})
